@@ -410,7 +410,12 @@ let lp_main guard path tablepath needpath =
                     end
               end in
             pending := Some ("RECV", [], check))
-      | "ORDER" :: _ -> ()
+      | "ORDER" :: _ | "PRE" :: _ -> ()
+      | ["HC"; _; a; b] ->
+          flush_pending ();
+          (match !cur with Some c when a <> "0" || b <> "0" ->
+             oracle c.lid "held-packet-changed" (Printf.sprintf "packets queued to the forwarding threads changed after delivery (%s changed their bytes, %s their name): they alias the receive buffer, which the transport reuses for the next frame" a b)
+           | _ -> ())
       | ["END"] -> finish_case ()
       | x :: _ when (x = "FR" || x = "FO" || x = "FZ" || x = "OZ" || x = "NS" || x = "SP" || x = "DEC" || x = "DL" || x = "ST" || x = "RP" || x = "AL") ->
           obs := line :: !obs
